@@ -5,6 +5,8 @@ from vlib import Case
 from props.base import BaseProp, Violation
 
 OPS2 = ['add', 'sub', 'mul', 'div']
+# the compound-assignment forms compute the same sum / difference / product / quotient
+ASSIGN_FORMS = ['add_assign', 'sub_assign', 'mul_assign', 'div_assign']
 U = {64: 2.0 ** -53, 32: 2.0 ** -24}
 
 
@@ -20,12 +22,12 @@ class Prop(BaseProp):
             ty = tys[k % len(tys)]
             k += 1
             grid = rng.below(2) == 0
-            op = rng.choice(OPS2 + ['neg', 'mul', 'div'])
+            op = rng.choice(OPS2 + ['neg', 'mul', 'div'] + ASSIGN_FORMS)
             leaf = genvals.leaf_grid if grid else genvals.leaf_rand
             a = genvals.gen_value(rng, ty, leaf)
             args = [a]
             if op != 'neg':
-                if op == 'div':
+                if op in ('div', 'div_assign'):
                     re_leaf = (lambda r: r.choice([1.0, -1.0]) * 2.0 ** (r.below(7) - 3)) if grid else (lambda r: r.choice([1.0, -1.0]) * r.uniform(0.3, 3))
                     b = genvals.gen_value(rng, ty, leaf, re_leaf=re_leaf)
                 else:
@@ -36,7 +38,7 @@ class Prop(BaseProp):
 
     def reference(self, case, conv):
         J = [pyjet.jet_of_value(v, case.ty, conv) for v in case.args]
-        op = case.op
+        op = case.op.replace('_assign', '')
         if op == 'add':
             return J[0] + J[1], None
         if op == 'sub':
